@@ -65,10 +65,13 @@ Theorem C13_grun_is_run_on_base_cases : forall cs, grun (map GB cs) = run cs.
 Proof. exact grun_base. Qed.
 Print Assumptions C13_grun_is_run_on_base_cases.
 
-(* the oracle applied to a case over the larger alphabet (the property with
-   "regular file" widened to "neither directory nor link") is met by the model *)
-Theorem C13_special_model_meets_oracle : forall i, spec_ok (erase_input i) (xmodel i) = true.
-Proof. exact xmodel_spec_ok. Qed.
+(* the oracle applied to a case over the larger alphabet ([xspec_ok]: returned
+   certificates must be exactly the store's, read with "regular file" widened to
+   "neither directory nor link"; an error is accepted whenever the store is not
+   loadable in the literal reading) is met by the model *)
+Theorem C13_special_model_meets_oracle : forall i,
+  spec_ok (erase_input i) (xmodel i) = true /\ xspec_ok i (xmodel i) = true.
+Proof. exact xmodel_meets_oracles. Qed.
 Print Assumptions C13_special_model_meets_oracle.
 
 (* ---------- non-vacuity ---------- *)
